@@ -667,6 +667,10 @@ def t_solvers():
     shape = all(x in psrc for x in ('if len(unknowns) == 1:', 'if not isinstance(bounds, tuple) or bounds[0] > bounds[1]:', "return 'brentq'", 'elif len(unknowns) > 1:',
                                     'init_values = list(unknowns.values())', 'if not np.all([isinstance(v, Real) for v in init_values]):', "return 'broyden_custom'")) \
         and psrc.count('raise ValueError') == 3
+    sfu = find_def('blocks/support/steady_state.py', 'solve_for_unknowns')
+    calls = [n for n in ast.walk(sfu) if isinstance(n, ast.Call) and ast.unparse(n.func) in ('solvers.broyden_solver', 'solvers.newton_solver', 'opt.root', 'opt.root_scalar')]
+    fwd = len(calls) >= 6 and all(any(k.arg in ('tol', 'xtol') and ast.unparse(k.value) == 'tol' for k in c.keywords) for c in calls)
+    out += f"Definition every_solver_call_receives_the_tolerance : bool := {'true' if fwd else 'false'}.\n"
     out += f"Definition default_solver_validates_every_unknown : bool := {'true' if every else 'false'}.\n"
     out += f"Definition default_solver_decision_shape : bool := {'true' if shape else 'false'}.\n"
     return out
